@@ -1,5 +1,8 @@
 """C14 bounded stand-in: Lanczos and Arnoldi iterations satisfy their Krylov factorization relations."""
 import json, warnings
+import os
+for _v in ('OMP_NUM_THREADS', 'OPENBLAS_NUM_THREADS', 'MKL_NUM_THREADS'):     # tiny matrices, 14 worker processes:
+    os.environ.setdefault(_v, '1')                                            # threaded BLAS only causes contention
 import numpy as np
 from pytenet import krylov
 from . import oracle
